@@ -42,7 +42,7 @@ PROBES = ["torn_index_seen_by_reader", "hole_state_seen"]
 
 
 def n_runs(tier):
-    return 320 if tier == "quick" else 2 * SHARDS + 4000
+    return 320 if tier == "quick" else 2 * SHARDS + 1500
 
 
 def _small_world(rng, backends):
@@ -91,6 +91,13 @@ def generate(rng, tier, index):
         # "moved": complete indexes that were made when the product lived elsewhere (the stored
         # location differs, the meaning is the same) are already in both cache locations
         plan["preexisting"] = rng.choice(["none", "none", "complete", "moved"])
+        if len(wp["images"]) == 1 and rng.random() < 0.5 and not (
+                isinstance(plan["at"], dict) and "event" in plan["at"]) and plan["at"] != "close":
+            # the index of an EARLIER DELIVERY of the product (same names, other content) is in
+            # place and the creation that refreshes it is interrupted while writing (only crash
+            # points after the old file was opened for writing - before that the stale index is
+            # simply still there, which is not this property's business)
+            plan["preexisting"] = "stale"
         plan["moved_where"] = rng.choice(["user", "adjacent", "adjacent", "both"])
         # after an interrupted TOOL run the tool is run again, to completion, with another
         # records-per-chunk value, before the usual checks
@@ -99,7 +106,8 @@ def generate(rng, tier, index):
         # request size of the (interrupted) tool run itself: mostly small, so that its scan has
         # several steps
         plan["cli_rpc"] = rng.choice([None, 1, 2, 2, 3])
-        if plan["writer"] == "cli" and plan["preexisting"] != "moved" and rng.random() < 0.7:
+        if plan["writer"] == "cli" and plan["preexisting"] not in ("moved", "stale") \
+                and rng.random() < 0.7:
             # the tool's protocol may have several steps per image (journal, temp file, marker):
             # several crash points of one run, at operation granularity
             plan["ats"] = [plan["at"]] + [{"event": e} for e in
@@ -231,6 +239,7 @@ class Ctx:
         self.keys = []
         self.stats = {}
         self.evaluations = 0
+        self.stale_docs = None
         self.kind = "local" if self.w.backend in world.LOCAL else "simfs"
 
     def bump(self, k, n=1):
@@ -411,8 +420,30 @@ def _moved_doc(doc):
     return doc.replace(old, b"/mnt/archive/2019/where-the-product-was-before")
 
 
+def _stale_docs(c):
+    """index documents of an earlier delivery: the same file names, another number of lines,
+    other line metadata"""
+    import copy
+
+    plan = c.plan
+    old = copy.deepcopy(plan["world"])
+    for im in old["images"]:
+        im["lines"] = max(im["lines"] + (3 if im["lines"] < 6 else -2), 1)
+    old["data_seed"] = plan["world"]["data_seed"] + 17
+    old["t0_ms"] = 1000
+    current = plan["world"]
+    c.w.rewrite_in_place(old)
+    try:
+        stale, _ = _produce_docs(c)
+    finally:
+        _clear(c)
+        c.w.rewrite_in_place(current)
+    return stale
+
+
 def run_s1_s2(c, ref):
     plan = c.plan
+    c.stale_docs = _stale_docs(c) if plan.get("preexisting") == "stale" else None
     docs, hashdir = _produce_docs(c)
     bad_ats = []
     for at in plan.get("ats") or [plan["at"]]:
@@ -428,6 +459,13 @@ def _run_s1_s2_once(c, ref, docs, hashdir, at):
     plan = c.plan
     if plan.get("preexisting") != "complete" or plan.get("ats"):
         _clear(c)
+    if plan.get("preexisting") == "stale":
+        where = "adjacent" if plan["writer"] == "cli" else "user"
+        for name, d in (c.stale_docs or {}).items():
+            if where == "user":
+                c.w.plant_user(hashdir, name, d)
+            else:
+                c.w.plant_adjacent(name, d)
     if plan.get("preexisting") == "moved":
         where = plan.get("moved_where", "both")
         for name, d in docs.items():
@@ -487,6 +525,13 @@ def _run_s1_s2_once(c, ref, docs, hashdir, at):
     ctx = {"k": k, "doc_len": len(docs[img]), "writer_outcome": outcome}
     if fired_at:
         ctx["crash_before"] = fired_at
+    if plan.get("preexisting") == "stale" and not (fired and outcome in ("killed",) or
+                                                    (fired and outcome.startswith("raised"))):
+        # the refreshing creation never got as far as writing (e.g. the tool refused the path):
+        # the earlier delivery's index is simply still there - a stale cache, not an interrupted
+        # creation
+        c.bump("stale-not-reached")
+        return
     ok = c.default_open_ok(ref, where, **ctx)
     if ok and writer == "cli" and plan.get("tool_rerun_rpc", "no") != "no":
         # "a later successful creation repairs it" - here by the tool itself, with another rpc
